@@ -80,6 +80,39 @@ theorem cursor_split (b size p : Nat) (hb : 0 < b) (hp : p ≤ size) :
   · simp only
     exact ⟨hdm, by omega⟩
 
+/-- the cursor of a position inside a file whose chain is long enough lies inside the chain -/
+theorem cursor_index_lt (b size p L : Nat) (hb : 0 < b) (hp : p ≤ size) (hsz : size ≤ L * b) (hL : 1 ≤ L) :
+    (Model.FatIO.seekCursor b size p).cindex < L := by
+  unfold Model.FatIO.seekCursor
+  simp only [Nat.min_eq_left hp]
+  have hdm := Nat.div_add_mod p b
+  rw [Nat.mul_comm] at hdm
+  have hle : p / b ≤ L := by
+    have : p / b * b ≤ L * b := by omega
+    exact Nat.le_of_mul_le_mul_right this hb
+  split
+  · rename_i hc
+    simp only
+    have hq : 1 ≤ p / b := by
+      rcases Nat.eq_zero_or_pos (p / b) with h0 | h0
+      · rw [h0] at hdm; omega
+      · exact h0
+    omega
+  · rename_i hc
+    simp only
+    rcases Nat.lt_or_ge (p / b) L with hlt | hge
+    · exact hlt
+    · exfalso
+      have heq : p / b = L := by omega
+      have : L * b ≤ p := by rw [← heq]; omega
+      have hps : p = size := by omega
+      have hpl : p = L * b := by omega
+      have hmod : p % b = 0 := by rw [hpl]; exact Nat.mul_mod_left _ _
+      have hpos : p > 0 := by
+        have : 1 * b ≤ L * b := Nat.mul_le_mul_right _ hL
+        omega
+      exact hc ⟨hps, hpos, hmod⟩
+
 /-- the shape of a file entry -/
 def Shape (b : Nat) (f : Node) : Prop :=
   (f.chain = [] ∧ f.size = 0) ∨ (f.chain ≠ [] ∧ f.chain.length = max 1 (numClus b f.size))
